@@ -1835,3 +1835,16 @@ V("c11-memoised-mask-written", "C11", "fire", GE, "import numpy as np\n", "impor
   more=[(GE, _GF_OLD, "    W = _full_adjacency(p)\n    W *= rng.uniform(w_min, w_max, size=W.shape)\n")], rule="FRESH", what="the cached mask is multiplied in place: the second graph of a size carries the first one's weights")
 V("c11-memoised-mask-read-only", "C11", "undecided", GE, "import numpy as np\n", "import numpy as np\nfrom functools import lru_cache\n\n\n@lru_cache(maxsize=None)\ndef _full_adjacency(p):\n    return np.triu(np.ones((p, p)), k=1)\n",
   more=[(GE, _GF_OLD, "    A = _full_adjacency(p)\n    weights = rng.uniform(w_min, w_max, size=A.shape)\n    W = A * weights\n")], what="the cached mask is only read")
+
+# ------------------------------------------------------------------------------- found by an operator-mutation sweep over the C09 functions (tools/mutation_sweep.py): silent or undecided before
+V("c09-outer-loop-never-ends", "C09", "fire", UT, "    while P.size > 0:\n", "    while P.size >= 0:\n", rule="LOOP.until-empty", what="with nothing left the scan fails: every input raises ValueError")
+V("c09-silent-outer-loop-one-left", "C09", "silent", UT, "    while P.size > 0:\n", "    while len(P) > 1:\n", what="stopping with one node left: nothing to orient")
+V("c09-scan-flag-starts-true", "C09", "fire", UT, "        found = False\n        i = 0\n", "        found = True\n        i = 0\n", rule="SCAN.complete", what="the scan never runs, nothing is removed: the search hangs")
+V("c09-raise-when-found", "C09", "fire", UT, "        if not found:\n            raise ValueError(\"PDAG", "        if found:\n            raise ValueError(\"PDAG", rule="RAISE.iff", what="polarity of the flag")
+V("c09-sink-exactly-one-child", "C09", "fire", UT, _SINK, "            sink = len(ch(i, P)) == 1\n", rule="SINK.childless", what="cardinality: decided in counting worlds")
+for _pid in ("C09", "C10"):
+    V("%s-meek-flag-starts-false" % _pid.lower(), _pid, "fire", UT, "    oriented_edges = True\n    while oriented_edges:", "    oriented_edges = False\n    while oriented_edges:", rule="ORIENT.fixpoint", what="no pass is ever made")
+    V("%s-meek-guard-conjunction" % _pid.lower(), _pid, "fire", UT, "            if rule_1(i, j, P) or rule_2(i, j, P) or rule_3(i, j, P) or rule_4(i, j, P):", "            if rule_1(i, j, P) and rule_2(i, j, P) or rule_3(i, j, P) or rule_4(i, j, P):", rule="ORIENT.meek", what="rules 1 and 2 must both hold")
+    V("%s-rule4-two-ks" % _pid.lower(), _pid, "undecided", UT, "    if len(Ks) > 0:\n", "    if len(Ks) > 1:\n", what="rule 4 needs two common parents: a real defect, no longer accepted as a harmless guard (was silent); not decided")
+    V("%s-rule1-two-parents" % _pid.lower(), _pid, "fire", UT, "    if len(pa(i, A)) > 0 and not pa(i, A) <= adj(j, A):", "    if len(pa(i, A)) > 1 and not pa(i, A) <= adj(j, A):", rule="RULES.rule_1", what="cardinality: decided in counting worlds")
+    V("%s-silent-rule1-vacuous-guard" % _pid.lower(), _pid, "silent", UT, "    if len(pa(i, A)) > 0 and not pa(i, A) <= adj(j, A):", "    if len(pa(i, A)) >= 0 and not pa(i, A) <= adj(j, A):", what="a guard that always holds")
